@@ -121,6 +121,25 @@ func (n *hnode) Process(ctx context.Context, e *eventlogger.Event) (*eventlogger
 		out = nil // sinks are leaves
 	}
 	r.maybeHold()
+	if n.spec.Beh == "err" {
+		// some failing nodes hand back an event together with their error (it must not be forwarded), and some
+		// report the Send's own context error when it is done by the time they return
+		ne := &NodeErr{ID: n.spec.ID, Inner: n.err.Inner}
+		h := 0
+		for _, ch := range n.spec.ID {
+			h += int(ch)
+		}
+		if ce := ctx.Err(); ce != nil && h%2 == 0 {
+			ne.Inner = ce
+			if h%4 == 0 {
+				ne.Inner = fmt.Errorf("gave up: %w", ce)
+			}
+		}
+		err = ne
+		if h%3 != 0 {
+			out = e
+		}
+	}
 	c.Out, c.Err = out, err
 	c.Leave = atomic.AddInt64(&r.seq, 1)
 	r.mu.Lock()
